@@ -1,5 +1,6 @@
 """Execution-graph rules (scheduler, topology): C19.R1-R5, C03.R4, C02.R4b."""
 import itertools
+import re
 
 from ..core import rule, Inconclusive
 from ..facts import AnchorMissing, is_local
@@ -308,3 +309,155 @@ def c02_r5(ctx):
     dnf = q.cond_of_block(facts, g, ins[0][0])
     if not dnf:
         ctx.viol('%s|always-panics' % g.path, g.at, 'get_receiver cannot reach the insert', None)
+
+
+def _ret_table(facts, f):
+    """{target block: (rendered value assigned to _0, simplified DNF of the paths reaching it)}"""
+    from ..pathcond import simplify
+    sym = q.sym(facts, f)
+    tg = {}
+    for bi, blk in enumerate(f.blocks):
+        if blk['cleanup']:
+            continue
+        for s in blk['s']:
+            if s['k'] == 'assign' and s['lhs'] == [0]:
+                tg[bi] = render(strip(sym.rvalue(s['rv'])))
+        t = blk['t']
+        if t['t'] == 'call' and t.get('dest') == [0]:
+            tg[bi] = render(strip(('call', t['callee']['path'], tuple(sym.operand(a) for a in t['args']), '')))
+    res = q.pe(facts, f).paths(lambda b, st: b in tg)
+    by = {}
+    for c, tb in res:
+        by.setdefault(tb, []).append(c)
+    return {tb: (tg[tb], simplify(cs)) for tb, cs in by.items()}
+
+
+def _clause_holds(c, asg):
+    """truth of a clause of is / isnot atoms under {place: variant}; atoms about other places make it None (unknown)"""
+    for a in c:
+        if a[0] == 'is' and a[1] in asg:
+            if asg[a[1]] != a[2]:
+                return False
+        elif a[0] == 'isnot' and a[1] in asg:
+            if asg[a[1]] in a[2]:
+                return False
+        else:
+            return None
+    return True
+
+
+@rule('C19', 'R10', 'placement table: replicas per block = all cores (Unlimited), min(n, cores) (Limited), one per host (Host), one (One); Replication::intersect keeps the narrower one; local ids = replica index')
+def c19_r10(ctx):
+    facts = ctx.facts
+    REPL = 'renoir::block::Replication'
+    vs = facts.variants(REPL)
+    # --- clamp(n)
+    f = facts.method(REPL, 'clamp')
+    tab = _ret_table(facts, f)
+    seen = {}
+    for tb, (val, dnf) in tab.items():
+        for c in dnf:
+            for v in vs:
+                if _clause_holds(c, {'self': v}) is True or _clause_holds(c, {'*self': v}) is True:
+                    seen.setdefault(v, set()).add(val)
+    ctx.inst('clamp|table', {v: sorted(x) for v, x in seen.items()})
+    want = {'Unlimited': lambda x: re.fullmatch(r'arg\d', x) is not None,
+            'Limited': lambda x: 'Ord::min(' in x and re.search(r'arg\d', x) and 'Limited' in x,
+            'Host': lambda x: x.startswith('1_'), 'One': lambda x: x.startswith('1_')}
+    for v in vs:
+        vals = seen.get(v)
+        if not vals:
+            raise Inconclusive('Replication::clamp: no return value found for variant %s' % v)
+        if v in want and not all(want[v](x) for x in vals):
+            ctx.viol('%s|clamp|%s' % (f.path, v), f.at, 'Replication::clamp returns `%s` for %s; required: Unlimited -> n, Limited(q) -> min(n, q), '
+                     'Host -> 1, One -> 1 (the number of replicas of a block on a host)' % (sorted(vals), v), None)
+    # --- intersect(a, b): the narrower of the two, for all 16 combinations
+    g = facts.method(REPL, 'intersect')
+    tab = _ret_table(facts, g)
+    places = set()
+    for tb, (val, dnf) in tab.items():
+        for c in dnf:
+            places.update(a[1] for a in c if a[0] in ('is', 'isnot'))
+    if len(places) != 2:
+        raise Inconclusive('Replication::intersect: expected tests on exactly two values, found %s' % sorted(places))
+    pa, pb = sorted(places)
+    rank = ['One', 'Host', 'Limited', 'Unlimited']
+    rows = 0
+    for va in vs:
+        for vb in vs:
+            outs = set()
+            for tb, (val, dnf) in tab.items():
+                for c in dnf:
+                    if _clause_holds(c, {pa: va, pb: vb}) is True:
+                        outs.add(val)
+            rows += 1
+            exp = min(va, vb, key=rank.index)
+            ok = len(outs) == 1 and list(outs)[0].startswith('Replication::%s(' % exp)
+            if ok and va == vb == 'Limited':
+                ok = 'Ord::min(' in list(outs)[0]
+            if not ok:
+                ctx.viol('%s|intersect|%s,%s' % (g.path, va, vb), g.at, 'Replication::intersect(%s, %s) yields %s; the narrower of the two (%s%s) is required: '
+                         'a block restricted by two constraints must satisfy both' % (va, vb, sorted(outs), exp, ' with min(n, m)' if va == vb == 'Limited' else ''), None)
+    ctx.inst('intersect|table', {'rows': rows, 'returns': sorted(v for v, _ in tab.values())})
+    # --- local placement: replicas 0..clamp(replication, parallelism), global id == replica index
+    lf = facts.method(SCHED, 'local_block_info')
+    sym = q.sym(facts, lf)
+    maps = [(bi, t) for bi, t in lf.calls() if (t['callee'].get('path') or '') == 'std::iter::Iterator::map']
+    ranges = [render(strip(sym.operand(t['args'][0]))) for bi, t in maps]
+    ctx.inst('local_block_info|ranges', {'ranges': ranges})
+    if not ranges:
+        raise AnchorMissing('local_block_info no longer maps a range of replica indexes')
+    for bi, t in maps:
+        r = render(strip(sym.operand(t['args'][0])))
+        if not (r.startswith('Range::Range(0_') and 'Replication::clamp(' in r and 'replication' in r and 'parallelism' in r):
+            ctx.viol('%s|local-range' % lf.path, t['at'], 'local replicas are enumerated over `%s`, not over 0..replication.clamp(parallelism)' % r, None)
+    for gcl in facts.closures_of(lf):
+        s2 = q.sym(facts, gcl)
+        news = q.calls_suffix(gcl, 'Coord::new')
+        for bi, t in news:
+            args = [render(strip(s2.operand(a))) for a in t['args']]
+            ctx.inst('local_block_info|coord|%s' % gcl.path.rsplit('::', 1)[-1], {'Coord::new': args})
+            if not re.fullmatch(r'arg\d', args[2]):
+                ctx.viol('%s|local-coord' % lf.path, t['at'], 'the replica id of a local coordinate is `%s`, not the enumerated index' % args[2], None)
+        for blk in gcl.blocks:
+            for s in blk['s']:
+                if s['k'] == 'assign' and s['lhs'] == [0] and s['rv']['r'] == 'agg' and len(s['rv'].get('o', [])) == 2:
+                    gid = render(strip(s2.operand(s['rv']['o'][1])))
+                    co = render(strip(s2.operand(s['rv']['o'][0])))
+                    m = re.search(r', (arg\d)\)$', co)
+                    ctx.inst('local_block_info|global-id', {'coord': co, 'id': gid})
+                    if not m or m.group(1) not in gid:
+                        ctx.viol('%s|local-global-id' % lf.path, s['at'], 'a local replica\'s global id is `%s`, which does not depend on its replica index `%s`: '
+                                 'replicas of one block would share a global index' % (gid, m.group(1) if m else co), None)
+                    elif gid != m.group(1):
+                        ctx.note('local global id is `%s` (a function of the replica index, injectivity not decided)' % gid)
+    # --- remote placement: how many replicas each host gets per variant, and where One is placed
+    rf = facts.method(SCHED, 'remote_block_info')
+    sym = q.sym(facts, rf)
+    arms = {}
+    for bi, t in q.calls_suffix(rf, 'Coord::new'):
+        dnf = q.cond_of_block(facts, rf, bi)
+        args = [render(strip(sym.operand(a))) for a in t['args']]
+        for v in vs:
+            if dnf and all(any(a[0] == 'is' and a[2] == v and 'replication' in a[1] for a in c) for c in dnf):
+                arms.setdefault(v, []).append((t['at'], args, dnf))
+    ctx.inst('remote_block_info|arms', {v: [(at, a[1:]) for at, a, _ in l] for v, l in arms.items()})
+    if set(arms) != set(vs):
+        raise Inconclusive('remote_block_info: cannot attribute the Coord::new sites to the Replication variants (found %s)' % sorted(arms))
+    for v, l in arms.items():
+        for at, args, dnf in l:
+            m = re.search(r'Range::Range\(0_\w+, (.*)\)\)\) as Some\)\.0$', args[2])
+            if not m:
+                ctx.viol('%s|remote-index|%s' % (rf.path, v), at, 'replica ids of a host do not enumerate a range starting at 0 (`%s`)' % args[2], None)
+                continue
+            n = m.group(1)
+            per_host = 'enumerate' in args[1]
+            if v == 'Unlimited' and not ('num_cores' in n and 'min(' not in n and per_host):
+                ctx.viol('%s|remote-count|Unlimited' % rf.path, at, 'Unlimited replication creates `%s` replicas per host (required: the host\'s num_cores, on every host)' % n, None)
+            if v == 'Limited' and not ('Ord::min(' in n and 'num_cores' in n and per_host):
+                ctx.viol('%s|remote-count|Limited' % rf.path, at, 'Limited replication creates `%s` replicas per host (required: min(remaining, num_cores))' % n, None)
+            if v == 'Host' and not (n.startswith('1_') and per_host):
+                ctx.viol('%s|remote-count|Host' % rf.path, at, 'Host replication creates `%s` replicas (required: exactly one on every host)' % n, None)
+            if v == 'One' and not (n.startswith('1_') and not per_host and 'host_id' not in args[1]):
+                ctx.viol('%s|remote-count|One' % rf.path, at, 'One replication creates `%s` replicas on host `%s` (required: exactly one, on a host every machine '
+                         'agrees on)' % (n, args[1]), None)
